@@ -4,7 +4,7 @@
    the byte encoding of the reference's commands: the relation R, one lemma per command, composition. *)
 From Coq Require Import ZArith List Bool Lia ZifyBool.
 Import ListNotations.
-From Urwid Require Import PyBase PyList vterm_csi_gen VTerm VT100Ref VTermRefine VTermListFacts VTermProofs VTermParse VTermSim VTermSimB VTermSimC VTermSimD VTermSimF VTermSimSgr.
+From Urwid Require Import PyBase PyList vterm_csi_gen VTerm VT100Ref VTermRefine VTermListFacts VTermProofs VTermParse VTermSim VTermSimB VTermSimC VTermSimD VTermSimF VTermSimSgr VTermSimO.
 Open Scope Z_scope.
 
 Arguments Z.mul : simpl never.
@@ -137,7 +137,7 @@ Qed.
 Definition cmd_small (c : cmd) : Prop :=
   match c with
   | CCup a b | CStbm a b => small a /\ small b
-  | CCuu n | CCud n | CCuf n | CCub n | CEl n | CEd n | CIch n | CDch n | CIl n | CDl n | CDsr n => small n
+  | CCuu n | CCud n | CCuf n | CCub n | CEl n | CEd n | CIch n | CDch n | CIl n | CDl n | CDsr n | CVpa n => small n
   | CSgr l => Forall small l
   | _ => True
   end.
@@ -173,6 +173,8 @@ Proof.
   - apply sim_so; assumption.
   - apply sim_si; assumption.
   - apply sim_desig; assumption.
+  - apply sim_vpa; assumption.
+  - apply sim_decom; assumption.
 Qed.
 
 Lemma sim_cmds cs : forall s v,
